@@ -73,6 +73,17 @@ Proof.
   rewrite E. destruct (e_lo b =? e_hi a); [|reflexivity]. cbn [option_map evs e_lo e_hi]. now rewrite map_app.
 Qed.
 
+(* the left-over of the repaired loop (trimmed on the left only) *)
+Lemma trim_left_scale den e s : 0 < den ->
+  trim_left (scale_ev den e) (den * s) = scale_ev den (trim_left e s).
+Proof.
+  intros Hd. unfold trim_left, scale_ev. cbn [e_lo e_hi evs]. f_equal.
+  induction (evs e) as [|x l IH]; [reflexivity|]. cbn [map filter].
+  assert (E : (den * s <=? den * x) = (s <=? x)).
+  { destruct (s <=? x) eqn:E0, (den * s <=? den * x) eqn:E1; try reflexivity; nia. }
+  rewrite E. destruct (s <=? x); cbn [map]; now rewrite IH.
+Qed.
+
 (* the loop, same fuel *)
 Lemma er_loop_scale den bsz stp : 0 < den -> forall (fuel : nat) (e : events),
   er_loop fuel (den * bsz) (den * stp) (scale_ev den e) =
@@ -92,9 +103,9 @@ Proof.
     replace (e_hi (scale_ev den e)) with (den * e_hi e) by reflexivity.
     replace (den * e_lo e + den * bsz) with (den * (e_lo e + bsz)) by lia.
     replace (den * e_lo e + den * stp) with (den * (e_lo e + stp)) by lia.
-    rewrite !get_range_scale by exact Hd.
+    rewrite !get_range_scale, trim_left_scale by exact Hd.
     destruct (get_range e (e_lo e) (e_lo e + bsz)) as [b|]; [|reflexivity].
-    destruct (get_range e (e_lo e + stp) (e_hi e)) as [e1|]; [|reflexivity].
+    set (e1 := trim_left e (e_lo e + stp)).
     cbn [option_map]. rewrite IH. destruct (er_loop fuel bsz stp e1) as [[cs e2]|]; [|reflexivity].
     cbn [option_map fst snd scale_ev evs]. unfold zlen. now rewrite map_length.
 Qed.
@@ -110,10 +121,8 @@ Proof.
     + destruct (e_hi e - e_lo e >? bsz) eqn:E; [lia|reflexivity].
     + destruct (e_hi e - e_lo e >? bsz) eqn:E; [|reflexivity].
       destruct (get_range e (e_lo e) (e_lo e + bsz)) as [b|]; [|reflexivity].
-      destruct (get_range e (e_lo e + stp) (e_hi e)) as [e1|] eqn:G; [|reflexivity].
-      assert (He1 : e_lo e1 = e_lo e + stp /\ e_hi e1 = e_hi e).
-      { unfold get_range in G. destruct ((e_lo e + stp <? e_lo e) || (e_hi e >? e_hi e)); [discriminate|].
-        injection G as <-. split; reflexivity. }
+      set (e1 := trim_left e (e_lo e + stp)).
+      assert (He1 : e_lo e1 = e_lo e + stp /\ e_hi e1 = e_hi e) by (split; reflexivity).
       rewrite (IH f2 e1) by lia. reflexivity.
 Qed.
 
